@@ -359,3 +359,185 @@ c04_m!(c04_m_fwd_fwd_b1_o1, 1, 1, [0, 0, 0, 0], 2, 0);
 c04_m!(c04_m_fwd_back_b1_o1, 1, 1, [0, 1, 0, 0], 2, 0);
 c04_m!(c04_m_last_back_b1_o1, 1, 1, [4, 1, 0, 0], 2, 0);
 c04_m!(c04_m_fwd_fwd_b0_o1, 0, 1, [0, 0, 0, 0], 2, 0);
+
+// =====================================================================================
+// C04.E: leaving a child (BTreeIterState::exit): the cursor has finished child `c` of a node with `n` separators
+// (children 0..=n). Going forward the next position is separator c if there is one (c < n), otherwise the node is
+// finished too; going backward it is separator c - 1 if c > 0 (recorded as Before(c)), otherwise the node is finished.
+// Every n in 1..=8 (n = 8: a full node, children 0..=8) and every c in 0..=n; stack of one inner node and one leaf.
+// =====================================================================================
+fn exit_case(forward: bool) {
+	let n: usize = kani::any();
+	let c: usize = kani::any();
+	kani::assume(n >= 1 && n <= ORDER && c <= n);
+	let mut parent = Node { separators: Default::default(), children: Default::default(), changed: false };
+	let mut j = 0;
+	while j < ORDER { if j < n { parent.separators[j] = Separator { modified: false, separator: Some(SeparatorInner { key: Vec::new(), value: Address::from_u64(1 + j as u64) }) }; } j += 1; }
+	let leaf = Node { separators: Default::default(), children: Default::default(), changed: false };
+	let mut st = BTreeIterState::new(1);
+	st.state = Vec::with_capacity(4);
+	st.state.push((LastIndex::Descend(c), parent));
+	st.state.push((LastIndex::At(0), leaf));
+	let exhausted = st.exit(if forward { IterDirection::Forward } else { IterDirection::Backward });
+	let more = if forward { c < n } else { c > 0 };
+	if more {
+		assert!(!exhausted && st.state.len() == 1, "C04.E the node stays on the stack while it has a separator left in the direction of travel");
+		assert!(matches!(st.state[0].0, LastIndex::Before(x) if x == c), "C04.E the cursor stands before separator c (forward: separator c is next; backward: separator c - 1)");
+	} else {
+		assert!(exhausted && st.state.len() == 0, "C04.E a node without separator left in the direction of travel is left as well");
+	}
+	kani::cover!(more && n == ORDER && c + 1 == ORDER);
+	kani::cover!(!more);
+	std::mem::forget(st);
+}
+crate::verif_env! {
+	#[kani::proof]
+	#[kani::unwind(10)]
+	fn c04_e_exit_forward() { exit_case(true) }
+}
+crate::verif_env! {
+	#[kani::proof]
+	#[kani::unwind(10)]
+	fn c04_e_exit_backward() { exit_case(false) }
+}
+
+// =====================================================================================
+// C04.S1: one step of the real tree cursor (BTreeIterState::next with exit, node_start, Node::fetch_child by contract)
+// from an ARBITRARY valid cursor position on a two-level tree — the inductive form of C04.S (whole sequences on a tree
+// did not fit). Position: the cursor is inside leaf number c of a root with n separators (1..=8, c <= n), the leaf has
+// m separators (1..=8), the leaf position is Seeked(i) / At(i) / Before(i); or the cursor stands on the root at
+// At(i) / Before(i) and the next step descends. Expected: the in-order neighbour in the direction of travel
+// (leaf key, else the root separator next to the leaf, else nothing), exactly the flat-cursor contract of C04.M.
+// Keys: leaf key j = [j], root separator j = [100 + j]; a freshly fetched child has keys [200], [201], [202].
+// =====================================================================================
+fn s1_sep(k: u8) -> Separator { Separator { modified: false, separator: Some(SeparatorInner { key: vec![k], value: Address::from_u64(1000 + k as u64) }) } }
+pub fn stub_fetch_child_s1<Q: LogQuery>(n: &Node, i: usize, _values: TablesRef, _log: &Q) -> Result<Option<Node>> {
+	match n.children[i].entry_index {
+		Some(_) => {
+			let mut l = Node { separators: Default::default(), children: Default::default(), changed: false };
+			l.separators[0] = s1_sep(200); l.separators[1] = s1_sep(201); l.separators[2] = s1_sep(202);
+			Ok(Some(l))
+		},
+		None => Ok(None),
+	}
+}
+fn s1_root(n: usize) -> Node {
+	let mut r = Node { separators: Default::default(), children: Default::default(), changed: false };
+	let mut j = 0;
+	while j < ORDER { if j < n { r.separators[j] = s1_sep(100 + j as u8); } j += 1; }
+	let mut j = 0;
+	while j < ORDER_CHILD { if j <= n { r.children[j] = Child { moved: false, entry_index: Some(Address::from_u64(500 + j as u64)) }; } j += 1; }
+	r
+}
+fn s1_check(got: &Option<(Vec<u8>, Value)>, want: Option<u8>) {
+	match (got, want) {
+		(Some((k, v)), Some(w)) => {
+			assert!(k.len() == 1 && k[0] == w, "C04.S1 one cursor step returns the in-order neighbour in the direction of travel");
+			assert!(v.len() == 1 && v[0] == w, "C04.S1 the value is read at the separator's value address");
+		},
+		(None, None) => {},
+		(Some(_), None) => assert!(false, "C04.S1 the cursor runs off the end where the in-order list ends"),
+		(None, Some(_)) => assert!(false, "C04.S1 the cursor never skips a key"),
+	}
+}
+pub fn stub_value_at_s1<Q: LogQuery>(_t: &BTreeTable, _key: TableKeyQuery, address: Address, _log: &Q) -> Result<Option<(u8, Value)>> {
+	let mut v = Vec::with_capacity(1);
+	v.push((address.as_u64() - 1000) as u8);
+	Ok(Some((0, v)))
+}
+
+/// the cursor is inside a leaf; n = separators of the root (concrete), m = separators of the leaf (concrete)
+fn step_in_leaf_case(n: usize, m: usize) {
+	// position (c, i) concrete per path (10.3: an array index that is symbolic makes every key clone a symbolic-pointer copy:
+	// 20 min, 18 GB without a verdict), kind and direction symbolic
+	let cs: usize = kani::any();
+	let is: usize = kani::any();
+	kani::assume(cs <= n && is <= m);
+	let mut c = 0;
+	while c <= 8 { if c <= n && c == cs { let mut i = 0; while i <= 8 { if i <= m && i == is { step_in_leaf_at(n, m, c, i); } i += 1; } } c += 1; }
+}
+fn step_in_leaf_at(n: usize, m: usize, c: usize, i: usize) {
+	let table = BTreeTable { id: 0, tables: RwLock::new(Vec::new()), ref_counted: false,
+		compression: crate::compress::Compress::new(crate::compress::CompressionType::NoCompression, u32::MAX) };
+	let view = crate::log::verif_kani::OvView;
+	let mut tree = BTree::new(Some(Address::from_u64(400)), 1, 7);
+	let mut leaf = Node { separators: Default::default(), children: Default::default(), changed: false };
+	let mut j = 0;
+	while j < ORDER { if j < m { leaf.separators[j] = s1_sep(j as u8); } j += 1; }
+	let kind: u8 = kani::any();
+	kani::assume(kind < 3 && if kind == 2 { i <= m } else { i < m });
+	let ix = match kind { 0 => LastIndex::Seeked(i), 1 => LastIndex::At(i), _ => LastIndex::Before(i) };
+	let mut st = BTreeIterState::new(7);
+	st.state = Vec::with_capacity(4);
+	st.state.push((LastIndex::Descend(c), s1_root(n)));
+	st.state.push((ix, leaf));
+	let fwd: bool = kani::any();
+	let got = st.next(&mut tree, &table, &view, if fwd { IterDirection::Forward } else { IterDirection::Backward }).unwrap();
+	// specification
+	let in_leaf: Option<usize> = match (kind, fwd) {
+		(0, _) => Some(i),
+		(1, true) => if i + 1 < m { Some(i + 1) } else { None },
+		(1, false) => if i > 0 { Some(i - 1) } else { None },
+		(_, true) => if i < m { Some(i) } else { None },
+		(_, false) => if i > 0 { Some(i - 1) } else { None },
+	};
+	let want = match in_leaf {
+		Some(j) => Some(j as u8),
+		None => if fwd { if c < n { Some(100 + c as u8) } else { None } } else { if c > 0 { Some(100 + c as u8 - 1) } else { None } },
+	};
+	s1_check(&got, want);
+	kani::cover!(in_leaf.is_none() && want.is_some());
+	kani::cover!(want.is_none());
+	std::mem::forget(got); std::mem::forget(st); std::mem::forget(tree); std::mem::forget(table);
+}
+
+/// the cursor stands on the root (after it returned separator i, or before separator i): the next step descends
+fn step_on_root_case(n: usize) {
+	let is: usize = kani::any();
+	kani::assume(is <= n);
+	let mut i = 0;
+	while i <= 8 { if i <= n && i == is { step_on_root_at(n, i); } i += 1; }
+}
+fn step_on_root_at(n: usize, i: usize) {
+	let table = BTreeTable { id: 0, tables: RwLock::new(Vec::new()), ref_counted: false,
+		compression: crate::compress::Compress::new(crate::compress::CompressionType::NoCompression, u32::MAX) };
+	let view = crate::log::verif_kani::OvView;
+	let mut tree = BTree::new(Some(Address::from_u64(400)), 1, 7);
+	let at: bool = kani::any();
+	kani::assume(if at { i < n } else { i <= n });
+	let mut st = BTreeIterState::new(7);
+	st.state = Vec::with_capacity(4);
+	st.state.push((if at { LastIndex::At(i) } else { LastIndex::Before(i) }, s1_root(n)));
+	let fwd: bool = kani::any();
+	let got = st.next(&mut tree, &table, &view, if fwd { IterDirection::Forward } else { IterDirection::Backward }).unwrap();
+	let want = match (at, fwd) {
+		(true, true) => Some(200),                       // first key of child i + 1
+		(true, false) => Some(202),                      // last key of child i
+		(false, true) => if i < n { Some(100 + i as u8) } else { None },   // separator i is next
+		(false, false) => if i > 0 { Some(100 + i as u8 - 1) } else { None },
+	};
+	s1_check(&got, want);
+	if at {
+		assert!(st.state.len() == 2 && matches!(st.state[0].0, LastIndex::Descend(x) if x == if fwd { i + 1 } else { i }), "C04.S1 after a root separator the cursor descends into the child on the far side of it");
+	}
+	kani::cover!(at && fwd);
+	kani::cover!(want.is_none());
+	std::mem::forget(got); std::mem::forget(st); std::mem::forget(tree); std::mem::forget(table);
+}
+
+macro_rules! c04_s1 {
+	($name:ident, $body:expr) => {
+		crate::verif_env! {
+			#[kani::proof]
+			#[kani::unwind(12)]
+			#[kani::stub(crate::btree::node::Node::fetch_child, stub_fetch_child_s1)]
+			#[kani::stub(crate::btree::BTreeTable::get_at_value_index, stub_value_at_s1)]
+			fn $name() { $body }
+		}
+	};
+}
+c04_s1!(c04_s1_step_in_leaf_full_root_full_leaf, step_in_leaf_case(8, 8));
+c04_s1!(c04_s1_step_in_leaf_full_root_small_leaf, step_in_leaf_case(8, 4));
+c04_s1!(c04_s1_step_in_leaf_small_root, step_in_leaf_case(2, 3));
+c04_s1!(c04_s1_step_on_full_root, step_on_root_case(8));
+c04_s1!(c04_s1_step_on_small_root, step_on_root_case(3));
